@@ -14,6 +14,7 @@ from __future__ import annotations
 
 import copy
 import json
+import sqlite3
 import logging
 from pathlib import Path
 
@@ -156,6 +157,9 @@ class ProcRig:
         from stabilize import SqliteQueue, SqliteWorkflowStore
 
         reset_globals()
+        from harness.engine import install_kill_shim
+
+        install_kill_shim()     # connections that can be made to fail one statement with "database is locked" (op hl)
         self.url = f"sqlite:///{Path(workdir) / (name + '.db')}"
         self.store = SqliteWorkflowStore(self.url, create_tables=True)
         self.queue = SqliteQueue(self.url)
@@ -221,6 +225,8 @@ class ProcRig:
             self.processor._handle_message(m)
         except RuntimeError:
             pass
+        except sqlite3.OperationalError:
+            pass            # the delivery failed before / while handling (lock timeout): the processor would retry it
         return self.counts.get(mid, 0) > before
 
     def close(self) -> None:
@@ -240,6 +246,10 @@ def gen_proc_ops(rng, nids: int) -> list[str]:
             used.append(i)
             o = rng.choice(["cr", "cr", "pr", "pr", "cx", "rx"])
             ops.append(f"h:{i}:{o}" + (":a" if rng.random() < 0.08 else ""))
+        elif k < 0.66 and used:
+            # redelivery while the durable duplicate lookup hits a lock timeout ("database is locked"): the delivery must
+            # fail and be retried - never be answered "new message"
+            ops.append(f"hl:{rng.choice(used)}")
         elif k < 0.72:
             ops.append("restart")
         elif k < 0.82:
@@ -279,8 +289,11 @@ def run_proc_case(rig: ProcRig, ids: list[str], cap: int, fp: float, trust: bool
         return f"auth={b01(d.authoritative)} n={d.items_added}"
 
     outs.append(tail())           # the implicit first `restart`
+    model_ops: list[str] = []     # the op list the model is asked about: `hl` becomes a plain delivery, or nothing when it failed
     for op in ops:
         parts = op.split(":")
+        if parts[0] != "hl":
+            model_ops.append(op)
         if parts[0] == "h":
             mid = ids[int(parts[1])]
             o = parts[2]
@@ -304,6 +317,38 @@ def run_proc_case(rig: ProcRig, ids: list[str], cap: int, fp: float, trust: bool
                 via.setdefault(mid, set()).add("return")
             elif ran and o == "cx":
                 via.setdefault(mid, set()).add("raise")
+        elif parts[0] == "hl":
+            from harness.engine import _KillState
+
+            mid = ids[int(parts[1])]
+            committed_before = rig.store.is_message_processed(mid)
+            _KillState.fail_sql = "SELECT 1 FROM processed_messages WHERE message_id"
+            try:
+                ran = rig.deliver(mid, "pr", False)
+            finally:
+                fired = _KillState.fail_sql is None
+                _KillState.fail_sql = None
+            notes.append("locked-lookup-fired" if fired else "locked-lookup-not-reached")
+            if committed_before and ran and fired:
+                hits.append((f"the durable duplicate lookup of message {mid!r} failed with 'database is locked' and the handler ran again "
+                             f"although the message's processed record is committed", SIG_RERUN + ":lookup-failed-open"))
+            elif committed_before and ran:
+                # the lookup was not even attempted (trusted bloom negative): judged exactly like a plain delivery
+                how = via.get(mid, set())
+                if not trust or "return" in how:
+                    hits.append((f"handler ran again for message {mid!r} whose processed record was committed "
+                                 f"(trust_negative_cache={trust}, record written by {sorted(how)})", SIG_RERUN))
+                elif "raise" in how:
+                    hits.append((f"dedup_trust_negative_cache=True: handler committed the processed record of {mid!r} and raised; "
+                                 f"on redelivery the authoritative filter's negative skipped the durable check and the handler ran again", SIG_F7))
+                else:
+                    notes.append("rerun-after-peer-mark(trust-on)")
+            if ran:
+                via.setdefault(mid, set()).add("return")
+            if fired and not ran:
+                continue          # the delivery failed before anything happened: not an op of the model
+            model_ops.append(f"h:{parts[1]}:pr")
+            outs.append(f"{'run' if ran else 'skip'} {tail()} seen={b01(rig.dedup().maybe_seen(mid))}")
         elif parts[0] == "restart":
             rig.restart()
             outs.append(tail())
@@ -352,7 +397,7 @@ def run_proc_case(rig: ProcRig, ids: list[str], cap: int, fp: float, trust: bool
         note_records()
         if verbose:
             print(f"   {op:14s} -> {outs[-1]}")
-    return {"outs": outs, "hits": hits, "notes": notes}
+    return {"outs": outs, "hits": hits, "notes": notes, "model_ops": model_ops}
 
 
 def shrink_proc(rig: ProcRig, case: dict, sig: str) -> dict:
@@ -390,7 +435,7 @@ def proc_suite(ctx, cases: list[dict] | None = None, n: int | None = None) -> No
                          "ops": gen_proc_ops(rng, len(ids))})
         for case in todo:
             res = run_proc_case(rig, case["ids"], case["cap"], case["fp"], case["trust"], case["ops"])
-            line = proc_line(rig, case["ids"], case["cap"], case["trust"], case["ops"])
+            line = proc_line(rig, case["ids"], case["cap"], case["trust"], res["model_ops"])
             seen_ids: set[str] = set()
             redelivery = False
             for op in case["ops"]:
@@ -750,7 +795,7 @@ def replay(ctx, body) -> int:
             print(f"replaying C09 proc case: ids={r['ids']} cap={r['cap']} trust={r['trust']}")
             print(f"   {'restart':14s} (implicit)")
             res = run_proc_case(rig, r["ids"], r["cap"], r["fp"], r["trust"], r["ops"], verbose=True)
-            model = ctx.lean([proc_line(rig, r["ids"], r["cap"], r["trust"], r["ops"])])
+            model = ctx.lean([proc_line(rig, r["ids"], r["cap"], r["trust"], res["model_ops"])])
             if model is not None:
                 print("   model:", model[0])
                 print("   impl :", "|".join(res["outs"]))
